@@ -7,7 +7,10 @@
              array cell (all slices involved start at offset 0); nil = None; Go's append rule
              (in place when len+n <= cap, otherwise a fresh array of the grown capacity)
      maps    Go maps string -> []string (Headers, QueryParams, FormData, PathParams); a map
-             value is an address or nil; setters mutate the cell in place
+             value is an address or nil; setters mutate the cell in place; every entry's value is a
+             slice (array, len) into `arrs` like any other slice: Add appends in place when the
+             capacity allows (url.Values.Add, SetCommonHeaderNonCanonical), Set stores a fresh
+             one-element slice
      recs    *retryOption records (two scalars, two slices)
      jars    boxes: one mutable cell per pointer target that is updated in place - cookie jars behind
              http.Client.Jar (SetCookies), *DumpOptions (Client.dumpOptions and the options inside the
@@ -63,11 +66,12 @@ Definition nget_list (k : nat) (l : list (nat * list val)) : list val :=
 Record retry := { r_max : val; r_int : val; r_conds : slice; r_hooks : slice }.
 Definition retry0 : retry := {| r_max := 0; r_int := 0; r_conds := None; r_hooks := None |}.
 
-Definition mapcell := list (val * list val).
+Definition mapcell := list (val * list val).     (* a map read through its references: key -> values *)
+Definition hmapcell := list (val * slice).        (* a map in the heap: key -> slice *)
 
 Record heap := {
   arrs : list (list val);
-  maps : list mapcell;
+  maps : list hmapcell;
   recs : list retry;
   jars : list (list val) }.
 
@@ -119,22 +123,38 @@ Fixpoint sl_build (grow : nat -> nat -> nat) (A : list (list val)) (s : slice) (
   end.
 
 (* ---------- maps ---------- *)
-Definition mp_read (M : list mapcell) (m : option nat) : mapcell :=
+Definition mp_view (A : list (list val)) (c : hmapcell) : mapcell :=
+  map (fun kv => (fst kv, sl_read A (snd kv))) c.
+Definition mp_cell (M : list hmapcell) (m : option nat) : hmapcell :=
   match m with None => [] | Some a => nth a M [] end.
+Definition mp_read (A : list (list val)) (M : list hmapcell) (m : option nat) : mapcell := mp_view A (mp_cell M m).
 
-(* lazily make the map, then update key k with f (old values) *)
-Definition mp_update (M : list mapcell) (m : option nat) (k : val) (f : list val -> list val)
-  : list mapcell * option nat :=
+(* the slice stored under key k (nil when absent) *)
+Definition mp_slot (M : list hmapcell) (m : option nat) (k : val) : slice :=
+  match nget k (mp_cell M m) with Some s => s | None => None end.
+(* lazily make the map, then m[k] = s *)
+Definition mp_put (M : list hmapcell) (m : option nat) (k : val) (s : slice) : list hmapcell * option nat :=
   match m with
-  | None => (M ++ [[(k, f [])]], Some (length M))
-  | Some a => let c := nth a M [] in (upd_nth a (nset k (f (nget_list k c)) c) M, Some a)
+  | None => (M ++ [[(k, s)]], Some (length M))
+  | Some a => (upd_nth a (nset k s (nth a M [])) M, Some a)
   end.
 
-(* cloneMap / cloneUrlValues / http.Header.Clone: nil stays nil, else a fresh map *)
-Definition mp_clone (M : list mapcell) (m : option nat) : list mapcell * option nat :=
+(* cloneMap / cloneUrlValues / http.Header.Clone: nil stays nil, else a fresh map whose entries have
+   fresh arrays holding exactly the values (the capacities Add leaves behind in the copy are not
+   modelled: without sharing they cannot be observed) *)
+Fixpoint clone_entries (A : list (list val)) (c : hmapcell) : list (list val) * hmapcell :=
+  match c with
+  | [] => (A, [])
+  | (k, s) :: t =>
+      let '(A1, s1) := sl_clone A s in
+      let '(A2, t2) := clone_entries A1 t in
+      (A2, (k, s1) :: t2)
+  end.
+Definition mp_clone (A : list (list val)) (M : list hmapcell) (m : option nat)
+  : list (list val) * list hmapcell * option nat :=
   match m with
-  | None => (M, None)
-  | Some a => (M ++ [nth a M []], Some (length M))
+  | None => (A, M, None)
+  | Some a => let '(A1, c1) := clone_entries A (nth a M []) in (A1, M ++ [c1], Some (length M))
   end.
 
 (* ---------- objects: a client or a request ---------- *)
@@ -289,11 +309,13 @@ Definition apply_setter (grow : nat -> nat -> nat) (H : heap) (o : obj) (s : set
       let o1 := set_sl o (upd_nth F_COOKIES None (o_sl o)) in
       if o_fact o then (with_jars H (jars H ++ [[]]), set_jar o1 (Some (length (jars H))) true) else (H, o1)
   | SMapSet f k v =>
-      let '(M, m') := mp_update (maps H) (nth f (o_mp o) None) k (fun _ => [v]) in
-      (with_maps H M, set_mp o (upd_nth f m' (o_mp o)))
+      let '(A, s') := sl_lit (arrs H) [v] in
+      let '(M, m') := mp_put (maps H) (nth f (o_mp o) None) k s' in
+      (with_maps (with_arrs H A) M, set_mp o (upd_nth f m' (o_mp o)))
   | SMapAdd f k v =>
-      let '(M, m') := mp_update (maps H) (nth f (o_mp o) None) k (fun old => old ++ [v]) in
-      (with_maps H M, set_mp o (upd_nth f m' (o_mp o)))
+      let '(A, s') := sl_append grow (arrs H) (mp_slot (maps H) (nth f (o_mp o) None) k) [v] in
+      let '(M, m') := mp_put (maps H) (nth f (o_mp o) None) k s' in
+      (with_maps (with_arrs H A) M, set_mp o (upd_nth f m' (o_mp o)))
   | SRetryCount n =>
       let '(H1, o1, r) := get_retry H o in
       (rec_upd H1 r (fun x => {| r_max := n; r_int := r_int x; r_conds := r_conds x; r_hooks := r_hooks x |}), o1)
@@ -409,13 +431,14 @@ Fixpoint clone_sls (modes : list bool) (A : list (list val)) (l : list slice) : 
       (A2, s1 :: t2)
   end.
 
-Fixpoint clone_mps (modes : list bool) (M : list mapcell) (l : list (option nat)) : list mapcell * list (option nat) :=
+Fixpoint clone_mps (modes : list bool) (A : list (list val)) (M : list hmapcell) (l : list (option nat))
+  : list (list val) * list hmapcell * list (option nat) :=
   match l with
-  | [] => (M, [])
+  | [] => (A, M, [])
   | m :: t =>
-      let '(M1, m1) := if hd true modes then mp_clone M m else (M, m) in
-      let '(M2, t2) := clone_mps (tl modes) M1 t in
-      (M2, m1 :: t2)
+      let '(A1, M1, m1) := if hd true modes then mp_clone A M m else (A, M, m) in
+      let '(A2, M2, t2) := clone_mps (tl modes) A1 M1 t in
+      (A2, M2, m1 :: t2)
   end.
 
 (* retryOption.Clone: nil stays nil; fresh record; both slices via append(nil, src...) *)
@@ -461,8 +484,8 @@ Definition clone_obj (grow : nat -> nat -> nat) (tbl : ctbl) (H : heap) (o : obj
   let chain := match rtw with [] => o_chain o | _ => Some rtw end in
   let tchain := match trw with [] => None | _ => Some trw end in
   let '(A1, sls) := clone_sls (t_sl tbl) (arrs H) (o_sl o) in
-  let '(M1, mps) := clone_mps (t_mp tbl) (maps H) (o_mp o) in
-  let H1 := with_maps (with_arrs H A1) M1 in
+  let '(A1', M1, mps) := clone_mps (t_mp tbl) A1 (maps H) (o_mp o) in
+  let H1 := with_maps (with_arrs H A1') M1 in
   let '(H2, rt) := if t_rt tbl then rt_clone grow H1 (o_rt o) else (H1, o_rt o) in
   let '(J6, jar, x) := clone_boxes tbl (jars H2) o in
   (with_jars H2 J6,
@@ -562,7 +585,7 @@ Definition abs_ext (J : list (list val)) (e : oext) : vext :=
 (* what an object looks like when read through its references *)
 Definition abs_obj (H : heap) (o : obj) : vobj :=
   {| v_sl := map (sl_read (arrs H)) (o_sl o);
-     v_mp := map (mp_read (maps H)) (o_mp o);
+     v_mp := map (mp_read (arrs H) (maps H)) (o_mp o);
      v_rt := rt_read H (o_rt o);
      v_chain := o_chain o; v_tchain := o_tchain o; v_scal := o_scal o;
      v_jar := jar_read H (o_jar o); v_fact := o_fact o; v_par := o_par o;
